@@ -14,8 +14,9 @@ for d in sorted(glob.glob('/verif/seeded/*/')):
         st=m.get('status','?')
         r2.append(f"| {name} | {short(m.get('summary'))} | {st.replace('_',' ')} | {esc(m.get('detected_by'))} | `{short(m.get('detected_as'),120)}` | {esc(m.get('note'))} |")
     else:
-        res='caught' if m.get('detected') else 'missed'
-        r1.append(f"| {name} | {short(m.get('summary'))} | {res} | `{short(m.get('detected_as'),120)}` | {esc(m.get('note'))} |")
+        res=(m.get('status') or ('caught' if m.get('detected') else 'missed')).replace('_',' ')
+        by=m.get('detected_by') or name
+        r1.append(f"| {name} | {short(m.get('summary'))} | {res} (by {by}) | `{short(m.get('detected_as'),120)}` | {esc(m.get('note'))} |")
 from collections import Counter
 c=Counter(json.load(open(d+'meta.json')).get('status') for d in glob.glob('/verif/seeded/*-2?/'))
 text=f'''## 8. Detection results: seeded changes
@@ -37,14 +38,17 @@ without newline) broke the property on the tree it was written against; the repo
 and 51a8319 made the store robust against it (its own demonstration passes with the change
 applied), so it is kept for the record only and a second C05 change was commissioned.
 
-Round 1 summary: 20 / 20 reported. 13 were caught by the check as first built; 7 (C02, C04, C05,
-C08, C15, C16, C19) exposed a blind spot that was closed in a way that does not refer to the
-particular change. Two results changed later and are the most instructive ones: the C01 and
-C18 changes had to be ported after repo fixes rewrote the code around them, and the *ported*
-versions were at first missed — C01 because lock acquisitions were not scheduling points in its
-filter, C18 because the ported race sits between two steps without a source hook. Both led to
-general repairs of the machinery (lock hooks as scheduling points; every file-system call as a
-scheduling point), not to special cases.
+Round 1 summary: all 20 are reported by a registered check on the final tree: 18 by the check of
+the property they were written for, 2 (C03, C05) by C04 - later repo fixes (833d7be, 12eecb2) made
+C03 and C05 *hold* under those two changes, and what remains of them is a cache-transparency
+violation. 13 were caught by the check as first built; 7 (C02, C04, C05, C08, C15, C16, C19)
+exposed a blind spot that was closed in a way that does not refer to the particular change. Two
+results changed later and are the most instructive ones: the C01 and C18 changes had to be
+ported after repo fixes rewrote the code around them, and the *ported* versions were at first
+missed - C01 because lock acquisitions were not scheduling points in its filter, C18 because the
+ported race sits between two steps without a source hook. Both led to general repairs of the
+machinery (lock hooks as scheduling points; every file-system call as a scheduling point), not
+to special cases.
 
 ### 8.2 Round 2: two further changes per property, against different mechanisms
 
